@@ -319,7 +319,7 @@ PROPS["C11"] = {
     "require": {"any": {"c11.gap-shapes": 50, "c11.payloads-created": 10000, "histories": 500, "restarts.clear": 10, "restarts.keep": 10}},
     "assumptions": ["column allocations of a panicking callback are not judged (the property does not promise them)",
                     "after restart the matcher may let go of the old stream at any time; only injector handles count as 'can reach' for the early-drop rule of old streams",
-                    "the pool thread that ran the last run releases its worker reference asynchronously: drop counts get 1.5 s to settle (a leak never settles)"],
+                    "the pool thread that ran the last run releases its worker reference asynchronously: drop counts get up to 10 s to settle (a leak never settles)"],
 }
 
 
